@@ -9,6 +9,7 @@ and causing an [override] type error in the plugins implementation.
 
 from __future__ import annotations
 
+import sys
 from pathlib import Path
 from typing import TYPE_CHECKING
 
@@ -31,6 +32,7 @@ from glotaran.plugin_system.io_plugin_utils import infer_file_format
 from glotaran.plugin_system.io_plugin_utils import not_implemented_to_value_error
 from glotaran.plugin_system.io_plugin_utils import protect_from_overwrite
 from glotaran.utils.ipython import MarkdownStr
+from glotaran.utils import verif_trace as _vt
 
 if TYPE_CHECKING:
     from collections.abc import Callable
@@ -238,14 +240,29 @@ def save_dataset(
         of the data io plugin. If you aren't sure about those use ``get_datasaver``
         to get the implementation with the proper help and autocomplete.
     """
+    if _vt.ENABLED:
+        _vt.emit(
+            "save_begin",
+            fn="save_dataset",
+            cid=id(sys._getframe()),
+            target=Path(file_name).resolve().as_posix(),
+            fmt=format_name,
+            allow=bool(allow_overwrite),
+        )
     protect_from_overwrite(file_name, allow_overwrite=allow_overwrite)
     io = get_data_io(format_name or infer_file_format(file_name, needs_to_exist=False))
+    if _vt.ENABLED:
+        _vt.emit(
+            "save_plugin", fn="save_dataset", cid=id(sys._getframe()), plugin=type(io).__name__
+        )
     if "loader" in dataset.attrs:
         del dataset.attrs["loader"]
     io.save_dataset(file_name=Path(file_name).as_posix(), dataset=dataset, **kwargs)
     dataset.attrs["loader"] = load_dataset
     if update_source_path is True or "source_path" not in dataset.attrs:
         dataset.attrs["source_path"] = Path(file_name).as_posix()
+    if _vt.ENABLED:
+        _vt.emit("save_end", fn="save_dataset", cid=id(sys._getframe()))
 
 
 def get_dataloader(format_name: str) -> DataLoader:
